@@ -42,6 +42,22 @@ def loose(a, b):
     return a == b
 
 
+def loose_cleared(a, b):
+    """like loose, for values appended after ArrayBuilder.clear: the type knowledge of the cleared values is kept, so a
+    record may carry fields only earlier (cleared or abandoned) records had -- all None -- and the order of the fields
+    is the order in which the builder first saw them"""
+    if isinstance(a, dict) and isinstance(b, dict):
+        return (all(k in a for k in b) and all(a[k] is None for k in a if k not in b)
+                and all(loose_cleared(a[k], b[k]) for k in b))
+    if isinstance(a, list) and isinstance(b, list):
+        return len(a) == len(b) and all(loose_cleared(x, y) for x, y in zip(a, b))
+    if isinstance(a, tuple) and isinstance(b, tuple):
+        return len(a) == len(b) and all(loose_cleared(x, y) for x, y in zip(a, b))
+    if isinstance(a, (dict, list, tuple)) or isinstance(b, (dict, list, tuple)):
+        return False
+    return loose(a, b)
+
+
 def loose_open(a, b):
     """like loose, for a snapshot taken while a value is still open: the open record may already have added a
     field to the shared record type, which completed records then show as None"""
@@ -1854,6 +1870,8 @@ def _builder_cmds(v, out):
         out.append("int %d" % v)
     elif isinstance(v, float):
         out.append("real %r" % v)
+    elif isinstance(v, complex):
+        out.append("complex %r %r" % (v.real, v.imag))
     elif isinstance(v, str):
         out.append("str %s" % (v.replace("\x00", "%00") if v else "''"))
     elif isinstance(v, list):
@@ -1918,22 +1936,55 @@ def fam_builder(rng):
     appended values up to the documented unification; every snapshot equals the values appended so far and never
     changes afterwards; the length is the number of top-level values"""
     vals = [_gen_pyvalue(rng, rng.randint(0, 3)) for _ in range(rng.randint(0, 6))]
+    if rng.random() < 0.08:
+        # a run of integers that fills the buffer to its reserved size (or beyond), then a number of a wider type
+        run = [rng.randint(-5, 9) for _ in range(rng.choice([1, 2, 3, 8, 9, 13]))] + [rng.choice([2.5, complex(1.5, -2.0)])]
+        vals = [run] if rng.random() < 0.5 else run
+    # `clear` empties the builder: the values before it are gone (snapshots taken earlier keep theirs); it comes between
+    # two values or in the middle of one (the open value is abandoned)
+    clear_at, clear_mid = None, False
+    if vals and rng.random() < 0.15:
+        clear_at = rng.randint(0, len(vals))
+        clear_mid = clear_at >= 1 and rng.random() < 0.4
     cmds, snaps, mids = [], [], set()
     for i, v in enumerate(vals):
+        if clear_at == i and not clear_mid:
+            cmds.append("clear")
         if rng.random() < 0.25:
             cmds.append("snap")
             snaps.append(i)
         sub = []
         _builder_cmds(v, sub)
+        if clear_mid and i == clear_at - 1:
+            if len(sub) > 1:
+                sub = sub[:rng.randint(1, len(sub) - 1)]
+                if sub[-1].startswith("index") or sub[-1].startswith("field"):
+                    sub = sub[:-1] or [sub[0]]
+            else:
+                sub = []
+            cmds.extend(sub)
+            cmds.append("clear")
+            continue
         if len(sub) > 1 and rng.random() < 0.15:
             # a snapshot taken in the middle of a value shows the values completed so far, nothing of the open one
             sub.insert(rng.randint(1, len(sub) - 1), "snap")
             snaps.append(i)
             mids.add(len(snaps) - 1)
         cmds.extend(sub)
+    if clear_at == len(vals) and not clear_mid:
+        cmds.append("clear")
     initial = rng.choice([1, 2, 8, 1024])
-    ref_final = builder_unify(vals)
-    ref_snaps = [builder_unify(vals[:i]) for i in snaps]
+    base = clear_at if clear_at is not None else 0
+    # clear removes the data, not the type knowledge: the surviving values are unified together with the cleared ones
+    done = vals[:clear_at - 1] + vals[clear_at:] if clear_mid else vals
+    dbase = base - 1 if clear_mid else base
+    ref_final = builder_unify(done)[dbase:]
+    cmp_final = loose_cleared if clear_at is not None else loose
+    # (a snapshot numbered i was taken when i values were complete; one taken before value clear_at - 1 was abandoned
+    #  still shows the values up to it)
+    ref_snaps = [builder_unify(done[:i - (1 if clear_mid else 0)])[dbase:] if (clear_at is not None and i >= clear_at) else builder_unify(vals[:i]) for i in snaps]
+    after = [clear_at is not None and i >= clear_at for i in snaps]
+    nvals = len(vals) - base
 
     def check(r):
         if r.status != "OK":
@@ -1941,14 +1992,14 @@ def fam_builder(rng):
         got_snaps, final, length, ferr = r.value
         if ferr != "":
             return ("validity", "the final snapshot of %r fails the validity check" % (vals,))
-        if length != len(vals):
-            return ("value", "ArrayBuilder length %r after appending %d values" % (length, len(vals)))
-        if not loose(final, ref_final):
+        if length != nvals:
+            return ("value", "ArrayBuilder length %r after appending %d values" % (length, nvals))
+        if not cmp_final(final, ref_final):
             return ("value", "ArrayBuilder over %r: final snapshot reads %r, the appended values (unified) are %r" % (vals, final, ref_final))
         if len(got_snaps) != len(ref_snaps):
             return ("value", "snapshot count")
         for k_, ((first, again, verr), ref) in enumerate(zip(got_snaps, ref_snaps)):
-            if not (loose_open if k_ in mids else loose)(first, ref):
+            if not (loose_cleared if after[k_] else loose_open if k_ in mids else loose)(first, ref):
                 return ("value", "snapshot after %d values reads %r, expected %r" % (len(ref), first, ref))
             if not L.same(first, again):
                 return ("value", "a snapshot CHANGED after more data were appended: %r became %r" % (first, again))
@@ -1965,7 +2016,8 @@ def fam_builder_malformed(rng):
         _builder_cmds(v, good)
     bad = rng.choice(["endlist", "endrecord", "endtuple", "field x int 1", "index 0 int 1",
                       "beginlist endrecord", "beginrecord _ endlist", "begintuple 2 index 2 int 1",
-                      "beginrecord _ int 1", "begintuple 1 int 1"])
+                      "beginrecord _ int 1", "begintuple 1 int 1", "begintuple 2 index -2 int 1", "begintuple 2 index -1 int 1",
+                      "begintuple 3 index 0 int 1 index -3 int 1"])
 
     def check(r):
         if r.status == "EXC":
